@@ -403,8 +403,12 @@ class ServerBase:
 
             try:
                 outgoing[0].send((outgoing[1], outgoing[2]))
-            except (EOFError, ConnectionResetError):
-                self.handle_disconnect(outgoing[0])
+            except (EOFError, ConnectionResetError, BrokenPipeError):
+                # The peer is gone. Drop the message; the main thread will
+                # read end-of-file from this connection and handle the
+                # disconnect there. Handling it on this thread too would
+                # race with the main thread over the node's state (and a
+                # shutdown started here would try to join this thread).
                 _logger.warning('Connection reset while sending message.')
                 continue
 
